@@ -212,11 +212,18 @@ def execute(sc):
             #   y[..., i, ...] = (x[..., i, ...] - mean[i]) / max(std[i], eps)
             if pt.shape[0] >= 2 and (pt.std(0) > 1e-3).all():
                 g = random.Random(sc["salt"] + 7)
-                given_mean = np.array([g.randrange(-8, 9) * 0.5 for _ in range(sc["F"])])
-                given_std = np.array([g.choice([0.5, 1.0, 2.0, 4.0]) for _ in range(sc["F"])])
+                # the statistics a caller hands over need not have the data's type: double, single, or whole numbers
+                sdt = g.choice(["float64", "float32", "int64"])
+                if sdt == "int64":
+                    given_mean = np.array([float(g.randrange(-4, 5)) for _ in range(sc["F"])])
+                    given_std = np.array([float(g.choice([1, 2, 4])) for _ in range(sc["F"])])
+                else:
+                    given_mean = np.array([g.randrange(-8, 9) * 0.5 for _ in range(sc["F"])])
+                    given_std = np.array([g.choice([0.5, 1.0, 2.0, 4.0]) for _ in range(sc["F"])])
                 tol = 1e-6 if sc["dtype"] == "float64" else 5e-3
+                res.bump(f"probe.given_statistics_{sdt}")
                 for which in ("mean", "std"):
-                    kw = {which: torch.tensor(given_mean if which == "mean" else given_std, dtype=torch.float64)}
+                    kw = {which: torch.tensor(given_mean if which == "mean" else given_std, dtype=getattr(torch, sdt))}
                     y = pooled([MeanVarianceNormalization(dim, **kw)(t)], dim)
                     m = given_mean if which == "mean" else pt.mean(0)
                     sd = given_std if which == "std" else pt.std(0)
